@@ -11,7 +11,11 @@ All durations are whole seconds (`Int`), `cfg : Option Int` is the effective `ca
 The model is the behaviour with the fixes `fixes/C10-2.patch` (a remaining lifetime inside the cache leeway means
 "do not cache"; before, `getCacheTTL` of the introspection and JWT authenticators and of the client-credentials
 strategy mapped it to 0 = "no information" and fell back to the configured TTL) and `fixes/C10-3.patch`
-(`cache_ttl: 0s` in a rule-level override of the remote authorizer is honoured).
+(`cache_ttl: 0s` in a rule-level override of the remote authorizer is honoured). A negative `validity_leeway` of the
+introspection and generic authenticators is refused when the configuration is loaded (`fixes/C10-5.patch`: with it a
+token would be refused as expired while the cache, which keeps a fixed positive leeway, still serves it); the
+theorems carry the hypothesis `0 ≤ vl`. The JWT finalizer's signer sets `exp`, `iat` and `nbf` itself after merging
+the claims rendered from the template, so a template cannot change the lifetime the cache TTL is derived from.
 -/
 namespace Heimdall.Validity
 
@@ -97,7 +101,7 @@ def cacheTTL (m : Mech) (cfg : Option Int) (rem : Option Int) : Int :=
 
 /-- the validity leeway applied when a fresh answer is checked (`validity_leeway`; 0 = not set = the default of
 `oauth2.Expectation` respectively `SessionLifespan`) -/
-def validityLeeway (m : Mech) (vl : Nat) : Int :=
+def validityLeeway (m : Mech) (vl : Int) : Int :=
   if vl = 0 then (match m with
     | .generic => Gen.sessionValidityLeeway
     | _ => Gen.tokenValidityLeeway)
@@ -105,7 +109,7 @@ def validityLeeway (m : Mech) (vl : Nat) : Int :=
 
 /-- is a fresh answer of the remote party accepted (`AssertValidity` / `SessionLifespan.assertValidity`: refused
 when `now − leeway ≥ exp`; certificate validation: refused when `now` is after `NotAfter`) -/
-def acceptsFresh (m : Mech) (vl : Nat) (rem : Option Int) : Bool :=
+def acceptsFresh (m : Mech) (vl : Int) (rem : Option Int) : Bool :=
   match m, rem with
   | .introspection, some r => decide (-(validityLeeway m vl) < r)
   | .generic, some r => decide (-(validityLeeway m vl) < r)
